@@ -1264,12 +1264,44 @@ def magnitude_atom(a, out, depth):
                     else:
                         magnitude_atom(b, out, depth + 1)
             return
+        if a[1] == "min" and len(args) == 2:
+            # min(x, y) is bounded by either argument: when the operands of one are among those of the other, the smaller set is the demand
+            s1, s2 = set(), set()
+            magnitude_params(args[0], s1, depth + 1)
+            magnitude_params(args[1], s2, depth + 1)
+            if s1 <= s2 or s2 <= s1:
+                out |= s1 if s1 <= s2 else s2
+            else:
+                out.add(("alt", frozenset(s1), frozenset(s2)))  # resolved where the demand is compared with the supply
+            return
         for k in args:
             if isinstance(k, tuple) and k and isinstance(k[0], tuple) and len(k[0]) == 2 and isinstance(k[0][0], tuple):
                 magnitude_params(k, out, depth + 1)
     elif a[0] == "sz" or a[0] == "q":
         for k in a[2]:
             magnitude_params(k, out, depth + 1)
+
+
+def _flat(ps):
+    out = set()
+    for x in ps:
+        if isinstance(x, tuple) and x and x[0] == "alt":
+            out |= _flat(x[1]) | _flat(x[2])
+        else:
+            out.add(x)
+    return out
+
+
+def _resolve_alts(ps, is_missing):
+    """a demand `min(x, y)` is met when the operands of x or those of y are covered: keep the branch with fewer uncovered operands"""
+    out = set()
+    for x in ps:
+        if isinstance(x, tuple) and x and x[0] == "alt":
+            a, b = _resolve_alts(x[1], is_missing), _resolve_alts(x[2], is_missing)
+            out |= a if sum(1 for y in a if is_missing(y)) <= sum(1 for y in b if is_missing(y)) else b
+        else:
+            out.add(x)
+    return out
 
 
 def params_in_key(key, out, depth=0):
@@ -1409,7 +1441,7 @@ def sc8(p, res, pairs):
                         st = comp.blocks[r[1]]["s"][r[2]][2]
                         for o in st.get("o", []):
                             magnitude_params(subst_key(csym.operand(o).key(), mapping).key(), ps)
-            sup.setdefault(at[1], set()).update(ps)
+            sup.setdefault(at[1], set()).update(_flat(ps))
             # companion parameters without a counterpart in the operation: each may stand for any one operand
             for a in args:
                 for r in cflow.op_roots(a):
@@ -1434,6 +1466,7 @@ def sc8(p, res, pairs):
                 continue  # paid through another kind of term: SC-1's business
             for ps, line, nm in lst:
                 n += 1
+                ps = _resolve_alts(ps, lambda x: x not in sup[kind] and 1 <= x <= f.argc)
                 missing = sorted(x for x in ps if x not in sup[kind] and 1 <= x <= f.argc)
                 if missing and len(missing) <= len(wild.get(kind, ())):
                     res.undec("SC-8", "%s: %s grows with %s; the companion's %s term depends on %d parameter(s) without a known counterpart" % (f.pretty, kind, [pn.get(x) for x in missing], kind, len(wild[kind])))
